@@ -76,6 +76,8 @@ def _exact_reach(m, root):
 
 # (d) order dependencies (each confirmed by reading what the later function reads / the earlier one establishes)
 INIT_ORDER = [
+    ('COIfInit', 'COTmrInit', 'the driver init stops the hardware timer: the timer lists are emptied only after no tick can arrive any more '
+                              '(re-initialisation of a node whose application timers are still pending)'),
     ('CODictInit', 'COSdoInit', 'COSdoInit enables the servers from 1200h.. (dictionary lookups)'),
     ('CODictInit', 'COCSdoInit', 'COCSdoInit enables the clients from 1280h..'),
     ('CODictInit', 'COEmcyInit', 'COEmcyInit looks up 1001h / 1014h'),
@@ -131,7 +133,7 @@ def order(ctx):
             if bad:
                 ctx.ob(P, 'RF9d', f, site, None)
                 # what is initialised in the wrong order belongs to these services as well
-                extra = {'CODictObjInit': ['C10', 'C11', 'C16', 'C06'], 'COSdoInit': ['C05'], 'COCSdoInit': ['C19'], 'COEmcyInit': ['C15'],
+                extra = {'COTmrInit': ['C08'], 'CODictObjInit': ['C10', 'C11', 'C16', 'C06'], 'COSdoInit': ['C05'], 'COCSdoInit': ['C19'], 'COEmcyInit': ['C15'],
                          'COSyncInit': ['C16'], 'CONmtBootup': ['C09']}.get(b, [])
                 ctx.find(P + extra, 'RF9d', f, 'order:%s<%s' % (a, b), m.loc(f, m.funcs[f].line), '%s: %s (%s)' % (site, bad, why))
             elif seen_both:
